@@ -300,7 +300,8 @@ CHECKS["C18"] = dict(
                "watcher - which makes 'none after cancel' conclusive. Cluster survey answers no peers.",
     rule="rapid-generated histories; non-trivial = >=2 transitions, a connection going away and the toggling watcher notified at least once; distinct = distinct case value.",
     legs=[dict(name="presence", test="^TestPresence$", quick=dict(n=300, procs=4, timeout=400), thorough=dict(n=30000, procs=14, timeout=3000)),
-          dict(name="backlog", test="^TestOrderUnderBacklog$", kind="plain", quick=dict(n=4, procs=1, timeout=300), thorough=dict(n=20, procs=1, timeout=900))],
+          dict(name="backlog", test="^TestOrderUnderBacklog$", kind="plain", quick=dict(n=4, procs=1, timeout=300), thorough=dict(n=20, procs=1, timeout=900)),
+          dict(name="cancel-backlog", test="^TestCancelBehindBacklog$", kind="plain", quick=dict(n=3, procs=1, timeout=300), thorough=dict(n=60, procs=2, timeout=900))],
 )
 
 CHECKS["C14"] = dict(
